@@ -370,9 +370,12 @@ class Crazyflie():
             raise Exception('Data part of packet is too large')
 
         self._send_lock.acquire()
-        if self.link is not None:
+        # close_link() and the link error callback reset self.link without taking the send lock: use one
+        # reference for the check and the calls below
+        link = self.link
+        if link is not None:
             if len(expected_reply) > 0 and not resend and \
-                    self.link.needs_resending:
+                    link.needs_resending:
                 pattern = (pk.header,) + expected_reply
                 logger.debug(
                     'Sending packet and expecting the %s pattern back',
@@ -392,7 +395,7 @@ class Crazyflie():
                     return
                 logger.debug('We want to resend and the pattern is there')
                 self._start_answer_timer(pk, pattern, timeout)
-            self.link.send_packet(pk)
+            link.send_packet(pk)
             self.packet_sent.call(pk)
         self._send_lock.release()
 
@@ -447,10 +450,12 @@ class _IncomingPacketHandler(Thread):
 
     def run(self):
         while True:
-            if self.cf.link is None:
+            # Another thread may close the link at any time: use one reference for the check and the call
+            link = self.cf.link
+            if link is None:
                 time.sleep(1)
                 continue
-            pk = self.cf.link.receive_packet(1)
+            pk = link.receive_packet(1)
 
             if pk is None:
                 continue
